@@ -63,6 +63,10 @@ func def(p map[string]int, k string, d int) int {
 
 var registry = []*Workload{
 	{
+		Name: "synthetic-load-store-vmcnt1", Outputs: []string{"out", "out2"}, Integer: true,
+		New: func(d *driver.Driver, a arch.Type, p map[string]int) benchmarks.Benchmark { return newLoadStoreVmcnt1(d, p) },
+	},
+	{
 		Name: "synthetic-3d-workgroup", Outputs: []string{"out"}, Integer: true,
 		New: func(d *driver.Driver, a arch.Type, p map[string]int) benchmarks.Benchmark { return newWorkItemIDs3D(d, p) },
 	},
